@@ -166,6 +166,17 @@ def json_dump(data):
     return json.dumps(data, indent=1, default=str)[:6000]
 
 
+def with_grammar_flags(p, d):
+    if d[0] == 'L':
+        return d
+    if d[0] == 'U':
+        return ('U', d[1], d[2], with_grammar_flags(p, d[3]))
+    l, r = with_grammar_flags(p, d[4]), with_grammar_flags(p, d[5])
+    rs = p.binary.get((A.dcat(l), A.dcat(r)), [])
+    hl = rs[d[1]][1] if d[1] < len(rs) else d[3]
+    return ('B', d[1], d[2], hl, l, r)
+
+
 def judge(ctx, focus, p, r, real):
     nbest = p.nbest
     pops = len(r['trace'])
@@ -184,7 +195,8 @@ def judge(ctx, focus, p, r, real):
         if focus in ('c02', 'c10', 'c16', 'c01'):
             check_licensed(ctx, p, d, f'result {i}', adm)
         if focus in ('c09', 'c10', 'c01'):
-            want = A.total8(p, d) * 2
+            # head directions as the GRAMMAR result named by the rule index says (this is what the returned tree carries)
+            want = A.total8(p, with_grammar_flags(p, d)) * 2
             if want != scores16[i]:
                 ctx.fail('score_mismatch', f'reported score {scores16[i] / A.SCALE} of result {i} is not the model score {want / A.SCALE} of the returned derivation', dict(pj, deriv=repr(d)))
     if focus == 'c01' and real and not head_uniform:
@@ -234,6 +246,9 @@ def run_family(ctx, focus, pfile):
             kw = {}
             if focus == 'c16':
                 kw = {'beta': rng.random() < 0.7, 'pruning': rng.choice([1, 2, 3, 50])}
+            if focus in ('c02', 'c09', 'c10', 'c16') and rng.random() < 0.35:
+                kw['head_left'] = 'mixed'       # these properties quantify over every grammar, head-uniform or not
+                ctx.count('grammar:mixed_heads')
             p = A.rand_problem(rng, nmax=5 if not quick else 4, kmax=5, nbest=nbest,
                                max_step=rng.choice([2000, 2000, 2000, 2000, rng.randint(1, 40)]), **kw)
             real = None
